@@ -183,7 +183,7 @@ pub fn handle(toks: &[&str], _st: &mut crate::State) -> Option<String> {
             let l = xs(toks.get(5)?)?.and_then(|s| Language::from_str(&s).ok());
             let sel = v::map::builder_selection(&face, sc, l.as_ref());
             let plan = ShapePlan::new(&face, d, sc, l.as_ref(), &[]);
-            let (name, chosen, found) = v::plan::plan_info(&plan);
+            let (name, chosen, found) = v::plan::plan_scripts(&plan);
             // required feature of the selected langsys, read through the per-table hook with the same tag lists
             let (st, lt) = v::tag::tags(sc.map(|s| s.tag().as_u32()), l.as_ref().map(|l| l.as_str()));
             let f = |i: usize| {
